@@ -290,3 +290,87 @@ def insert_stage(ctx):
     ctx.obligation("correspondence: Model/InsertShape.v insert_json = parse on %d INSERT / REPLACE statements (1-3 rows x 1-3 cells x column list absent / matching / one name; literal, falsy and non-literal cells)" % len(checks), not bad)
     for i in bad[:5]:
         ctx.violation("input", dict(meta[i], broken="correspondence Model/InsertShape.v vs to_row / to_values / to_insert_call"), no_input=True)
+
+
+# ---------------------------------------------------------------------------------------------------------------------------------
+# TRIM (Model/TrimExpr.v, Props/C03t.v)
+THMS_T = ["C03_trim_parse_format_parse", "C05_trim_operands_kept", "C03_trim_zero_characters_refuted"]
+HEADER_T = ("From Coq Require Import List ZArith String Bool.\nFrom MoSql Require Import Base.Json Model.TrimExpr.\nImport ListNotations.\n"
+            "Open Scope string_scope. Open Scope list_scope.\n"
+            "Definition ojv_eqb (a b : option jv) : bool := match a, b with Some x, Some y => jv_eqb x y | None, None => true | _, _ => false end.\n"
+            "Definition tparts_eqb (a b : tparts) : bool := ojv_eqb (p_dir a) (p_dir b) && ojv_eqb (p_chars a) (p_chars b) && Bool.eqb (p_from a) (p_from b) && ojv_eqb (p_val a) (p_val b).\n"
+            "Definition reread_trim_is (j : jv) (t : option jv) : bool := match reread_trim (fmt_trim j), t with Some s, Some v => jv_eqb (trim_json s) v | None, None => true | _, _ => false end.\n")
+
+
+def trim_stage(ctx):
+    M = impl.M
+    ctx.prove("Props.C03t", THMS_T)
+    dirs = [None, "both", "leading", "trailing"]
+    chars = [None, "'x'", "c1", "7", "0", "''", "a || 'y'"]
+    vals = ["b", "'s'", "a || b", "0", "null", "f(x, 1)", "''"]
+    pool = {x: value_of(M, x) for x in chars[1:] + vals}
+    missing = [k for k, v in pool.items() if v is None]
+    ctx.obligation("TRIM stage: every operand of the pool parses alone", not missing, str(missing))
+    checks, meta = [], []
+    n_fmt_diff = 0
+
+    def ftxt(x):
+        s2, o = impl.outcome(M.format, {"select": {"value": x}})
+        return o[len("SELECT "):] if s2 == "ok" and o.startswith("SELECT ") else None
+    for d in dirs:
+        for c in chars:
+            for v in vals:
+                if pool.get(v) is None or (c is not None and pool.get(c) is None):
+                    continue
+                forms = []
+                if c is not None:
+                    forms.append("trim(%s%s from %s)" % (d + " " if d else "", c, v))
+                elif d:
+                    forms += ["trim(%s from %s)" % (d, v), "trim(%s %s)" % (d, v)]
+                else:
+                    forms.append("trim(%s)" % v)
+                src = "{| dir := %s; chars := %s; val := %s |}" % (copt(None if d is None else cstr(d)), copt(None if c is None else cjson(pool[c])), cjson(pool[v]))
+                for f in forms:
+                    sql = "select " + f
+                    st, t = impl.outcome(M.parse, sql)
+                    ctx.count(1, sql)
+                    if st != "ok":
+                        ctx.violation("input", dict(sql=sql, observed="raised %s" % t, requires="TRIM over accepted operands is accepted"))
+                        continue
+                    tree = t["select"].get("value") if isinstance(t.get("select"), dict) else None
+                    if tree is None:
+                        continue
+                    checks.append("jv_eqb (trim_json %s) %s" % (src, cjson(tree))); meta.append(dict(sql=sql, returned=short(tree, 300), what="tree (to_trim_call + scrub)"))
+                    if not isinstance(tree, dict) or "trim" not in tree:
+                        continue
+                    # the formatter: twin of _trim, its rendering against format's text, Coq fmt_trim against the twin, re-read against parse(format)
+                    cc, dd, vv = tree.get("characters"), tree.get("direction"), tree["trim"]
+                    acc = ["TRIM("]
+                    if dd:
+                        acc += [dd.upper(), " "]
+                    if cc:
+                        acc += [ftxt(cc), " "]
+                    if cc or dd:
+                        acc.append("FROM ")
+                    acc += [ftxt(vv), ")"]
+                    st2, txt = impl.outcome(M.format, t)
+                    if st2 == "ok" and None not in acc and txt != "SELECT " + "".join(acc):
+                        n_fmt_diff += 1
+                        if n_fmt_diff <= 3:
+                            ctx.violation("input", dict(sql=sql, tree=short(t, 300), formatted=txt, model="SELECT " + "".join(acc), broken="correspondence Model/TrimExpr.v fmt_trim (twin) vs Formatter._trim"), no_input=True)
+                    parts = "{| p_dir := %s; p_chars := %s; p_from := %s; p_val := %s |}" % (copt(cjson(dd) if dd else None), copt(cjson(cc) if cc else None), cbool(bool(cc or dd)), copt(cjson(vv)))
+                    checks.append("tparts_eqb (fmt_trim %s) %s" % (cjson(tree), parts)); meta.append(dict(sql=sql, what="fmt_trim = twin of Formatter._trim"))
+                    if st2 == "ok" and all(value_of(M, ftxt(x)) == x for x in ([cc] if cc else []) + [vv]):
+                        st3, t3 = impl.outcome(M.parse, txt)
+                        v3 = t3["select"].get("value") if st3 == "ok" and isinstance(t3.get("select"), dict) else None
+                        checks.append("reread_trim_is %s %s" % (cjson(tree), copt(None if v3 is None else cjson(v3))))
+                        meta.append(dict(sql=sql, formatted=txt, reparsed=short(t3, 300), what="reread_trim (the parts read by the TRIM grammar) = parse(format(tree))"))
+    bad, log = l0.run_checks(ctx, "trim", HEADER_T, checks, shard=400)
+    if bad is None:
+        ctx.obligation("TRIM correspondence evaluated", False, log[-2000:])
+        ctx.violation("obligation", dict(what="TRIM correspondence could not be evaluated by coqc", log=log[-2000:]), no_input=True)
+        return
+    ctx.traces += len(checks)
+    ctx.obligation("correspondence: Model/TrimExpr.v (trim_json / fmt_trim / reread_trim) = implementation on %d TRIM checks" % len(checks), not bad and not n_fmt_diff)
+    for i in bad[:5]:
+        ctx.violation("input", dict(meta[i], broken="correspondence Model/TrimExpr.v vs implementation"), no_input=True)
